@@ -772,6 +772,35 @@ func c06R5(p *core.Program, r *core.Report) {
 		r.Anchor(rule, "the per-package function and the dispatch loop of pkg/gengo")
 		return
 	}
+	// every registration is kept: Defer appends its argument to the callback list on every path
+	if df := ctxMethod(p, "Defer"); df == nil {
+		r.Anchor(rule, "Defer method of the context type")
+	} else {
+		df = flatten(p, df)
+		dinfo := df.Info()
+		dg := graph(df)
+		var param *types.Var
+		if df.Type.Params != nil && len(df.Type.Params.List) == 1 && len(df.Type.Params.List[0].Names) == 1 {
+			param, _ = dinfo.ObjectOf(df.Type.Params.List[0].Names[0]).(*types.Var)
+		}
+		isAppend := func(n ast.Node) bool {
+			as, ok := n.(*ast.AssignStmt)
+			if !ok || len(as.Lhs) != 1 || len(as.Rhs) != 1 || !isRole(p, core.FieldOf(dinfo, as.Lhs[0]), "ctx.callbacks") {
+				return false
+			}
+			c, ok := ast.Unparen(as.Rhs[0]).(*ast.CallExpr)
+			if !ok || core.CalleeName(dinfo, c) != "builtin.append" || len(c.Args) != 2 {
+				return false
+			}
+			return isRole(p, core.FieldOf(dinfo, c.Args[0]), "ctx.callbacks") && core.VarOf(dinfo, c.Args[1]) == param && param != nil
+		}
+		_, skips := dg.Reach(dg.Entry(), true, cfgxQuery{
+			Target: func(q cfgxPoint) bool { return dg.IsExit(q) },
+			Cut:    func(q cfgxPoint) bool { return q.Node() != nil && isAppend(q.Node()) },
+		})
+		r.Check(!skips, rule, df, "every registered callback is kept", df.Node().Pos(), "every path through Defer appends its argument to the callback list",
+			"Defer can return without appending the callback (registrations are filtered or de-duplicated): a callback that was registered is never run")
+	}
 	info := f.Info()
 	g := graph(f)
 	// the callback loop: range over <ctx>.defers
